@@ -216,6 +216,24 @@ def dist_table(eng, res, rule="R-DIST-TABLE"):
     return n
 
 
+def _int_of(e):
+    """integer value of a slice bound built from len(<literal>), integer constants, + and unary -; None for no bound."""
+    if e is None:
+        return None
+    if isinstance(e, ast.Constant) and isinstance(e.value, int) and not isinstance(e.value, bool):
+        return e.value
+    if isinstance(e, ast.UnaryOp) and isinstance(e.op, ast.USub):
+        v = _int_of(e.operand)
+        return -v if isinstance(v, int) else "?"
+    if isinstance(e, ast.Call) and callee_name(e) == "len" and len(e.args) == 1 and isinstance(e.args[0], ast.Constant) and isinstance(e.args[0].value, str):
+        return len(e.args[0].value)
+    if isinstance(e, ast.BinOp) and isinstance(e.op, (ast.Add, ast.Sub)):
+        a, b = _int_of(e.left), _int_of(e.right)
+        if isinstance(a, int) and isinstance(b, int):
+            return a + b if isinstance(e.op, ast.Add) else a - b
+    return "?"
+
+
 def param_order(eng, res, rule="R-DIST-PARAM-ORDER"):
     n = 0
     for ci in families(eng):
@@ -226,6 +244,20 @@ def param_order(eng, res, rule="R-DIST-PARAM-ORDER"):
         ok = holes == order and len(order) == (doc[1] or len(order))
         res.ob(rule, ci.qualname, f"{ci.name}:positions", "attributes filled from text positions 0,1,… are printed in the same order (text form reproduces the parameters)",
                f"{ci.module.relpath}:{gs.node.lineno}", ok, f"constructor fills {order}, printer emits {holes}")
+        # the window of the text handed to the reader: everything after the keyword for the tuple reader ("(a, b)"),
+        # the keyword's parentheses stripped for a direct float()
+        for sub in [x for x in own_nodes(init.node) if isinstance(x, ast.Subscript) and "_raw_text" in src(x.value) and isinstance(x.slice, ast.Slice)]:
+            par = getattr(sub, "_parent", None)
+            reader = callee_name(par) if isinstance(par, ast.Call) else None
+            lo, hi = _int_of(sub.slice.lower), _int_of(sub.slice.upper)
+            if reader in ("make_tuple", "literal_eval"):
+                okw, want = (lo, hi) == (len(kw), None), f"[{len(kw)}:]"
+            elif reader == "float":
+                okw, want = (lo, hi) == (len(kw) + 1, -1), f"[{len(kw) + 1}:-1]"
+            else:
+                okw, want = False, "a slice read by make_tuple / float"
+            res.ob(rule, ci.qualname, f"{ci.name}:text-window", "the reader gets exactly the text after the keyword (tuple reader: with its parentheses; float(): without them)",
+                   f"{ci.module.relpath}:{sub.lineno}", okw, f"reader {reader} gets [{lo}:{hi}], expected {want} for keyword {kw!r}")
     return n
 
 
